@@ -23,6 +23,8 @@ FEATS = ["deform", "area_um", "pos_x", "time", "frame",
          "index_online", "fl1_max", "image", "mask", "trace"]
 POOL = ["area_um", "deform", "pos_x", "time"]   # two adjacent pairs
 FPS = 2000.0
+# more UTF-8 bytes than characters, longer than 100 bytes
+LONG_LINE = "flow 0.04 µl/s at 23.5 °C; " * 5 + "[end µ]"
 
 
 def _mkdir(scratch, tag):
@@ -201,7 +203,8 @@ def _join_case(args):
             if "time" in ev and "frame" in ev:
                 # keep the stored time consistent with frame / frame rate
                 ev["time"] = np.asarray(ev["frame"], float) / fps_of(j)
-            gen.write_rtdc(p, ev, meta=mj, logs={f"log{j}": [f"line of {j}"]})
+            gen.write_rtdc(p, ev, meta=mj, logs={f"log{j}": [
+                f"line of {j}"] + ([LONG_LINE] if j % 2 == 0 else [])})
             paths.append(p)
             evs.append(ev)
         outp = d / "joined.rtdc"
@@ -277,7 +280,8 @@ def _join_case(args):
                                      f"{ds['index'][:]}", tags))
         for pos, j in enumerate(order):
             # retained under whatever name (dclab: "src-#<k>_log<j>")
-            if not any(f"log{j}" in k and list(v) == [f"line of {j}"]
+            want = [f"line of {j}"] + ([LONG_LINE] if j % 2 == 0 else [])
+            if not any(f"log{j}" in k and list(v) == want
                        for k, v in r["__logs__"].items()):
                 out.append(violation(
                     W, "log-missing", case,
